@@ -44,6 +44,7 @@ def gen_cases(tier: str, seed: int) -> list[dict]:
     cases += [{"kind": "pollers3", "i": i, "seed": seed, "runs": 30} for i in range(8 if tier == "quick" else 450)]
     cases += [{"kind": "poison", "i": i, "seed": seed} for i in range(4 if tier == "quick" else 30)]
     cases += [{"kind": "replayers", "other": o, "seed": seed, "sample": 150 if tier == "quick" else 2000} for o in ("replay", "clear")]
+    cases += [{"kind": "sweepers", "seed": seed * 10 + j, "sample": 120 if tier == "quick" else 700} for j in range(2 if tier == "quick" else 6)]
     return cases
 
 
@@ -198,7 +199,9 @@ def _model_case(case: dict) -> dict:
                         obs["lock_or_delay_expiries"] += 1
                 elif op == "sweep":
                     moved = q.check_and_move_expired()
-                    exp = [u for u, s in model.m.items() if s["place"] == "queue" and s["attempts"] >= model.max]
+                    # a row whose lock is live is being handled (its last attempt): it is its holder's to ack or
+                    # reschedule; the sweep takes exhausted rows nobody holds (never held, rescheduled, or lock lapsed)
+                    exp = [u for u, s in model.m.items() if s["place"] == "queue" and s["attempts"] >= model.max and not s["locked"]]
                     tq, td = _tables(w)
                     stuck = [u for u in exp if tq.get(u) and not td.get(u)]
                     if stuck and all(model.m[u]["via_txn"] for u in stuck):
@@ -438,6 +441,118 @@ def _replayers(case: dict) -> dict:
     return {"violations": _uniq(violations), "obs": dict(obs), "keys": sorted(keys)}
 
 
+def _sweeper_run(policy, seed: int, two_sweepers: bool = False) -> tuple[list[dict], dict]:
+    """The dead-letter sweep (check_and_move_expired) racing pollers: one message is already out of attempts, a
+    second one is on its last attempt and gets claimed (which uses the attempt up) while the sweep is under way, a
+    third is fresh.  Whatever the interleaving, every message is in exactly one place and only messages that were
+    out of attempts are dead-lettered, each once."""
+    il.prepare_env()
+    maxa = 3
+    w = World(max_attempts=maxa)
+    rng = random.Random(seed)
+    try:
+        from stabilize.queue.messages import StartStage
+
+        for i in range(3):
+            w.queue.push(StartStage(execution_type="PIPELINE", execution_id="E", stage_id=f"u{i}"))
+        ids = [r["id"] for r in w.rows()]
+        w.harness_write([("UPDATE queue_messages SET attempts = ? WHERE id = ?", (maxa, ids[0])), ("UPDATE queue_messages SET attempts = ? WHERE id = ?", (maxa - 1, ids[1]))])
+        log: list[tuple] = []
+        out: list[dict] = []
+        plan = [rng.choice(["ack", "reschedule", "keep"]) for _ in range(3)]
+        moved: list[int] = []
+
+        def poller():
+            me = threading.current_thread().name
+            for action in plan:
+                try:
+                    msg = w.queue.poll_one()
+                except Exception as e:
+                    log.append((me, "poll-error", str(e)))
+                    try:
+                        w.queue._get_connection().rollback()
+                    except Exception:
+                        pass
+                    continue
+                if msg is None:
+                    continue
+                log.append((me, "claim", msg.message_id, action))
+                if action == "ack":
+                    w.queue.ack(msg)
+                elif action == "reschedule":
+                    w.queue.reschedule(msg, timedelta(0))
+
+        def sweeper():
+            me = threading.current_thread().name
+            for _ in range(2):
+                try:
+                    n = w.queue.check_and_move_expired()
+                    moved.append(n)
+                    log.append((me, "sweep", n))
+                except Exception as e:
+                    log.append((me, "sweep-error", f"{type(e).__name__}: {e}"))
+                    try:
+                        w.queue._get_connection().rollback()
+                    except Exception:
+                        pass
+
+        sched = il.Scheduler(policy)
+        w.commit_listeners.append(lambda world, idx, conn: sched.commit_event(conn))
+        bodies = {"S0": sweeper, "P0": poller}
+        if two_sweepers:
+            bodies["S1"] = sweeper
+        sched.run(bodies)
+        info = {"trace_hash": sched.trace_hash(), "switches": sched.switches, "failed": sched.failed, "steps": dict(sched.steps), "log": log}
+        for name, e in sched.errors.items():
+            out.append(viol("C08/sweeper-error", f"{name}: {type(e).__name__}: {e}"))
+        q = {str(r[0]): r[1] for r in w._exec_side("SELECT id, attempts FROM queue_messages").fetchall()}
+        d = [str(r[0]) for r in w._exec_side("SELECT original_id FROM queue_messages_dlq").fetchall()]
+        acked = {str(l[2]) for l in log if l[1] == "claim" and l[3] == "ack"}
+        for rid in map(str, ids):
+            places = (rid in q) + d.count(rid) + (rid in acked)
+            if places != 1:
+                out.append(viol("C08/sweep-vs-poller:message-in-%d-places" % places, f"row {rid}: queue={rid in q} dlq={d.count(rid)} acked={rid in acked}; history {log}"))
+        return out, info
+    finally:
+        w.close()
+
+
+def _sweepers(case: dict) -> dict:
+    obs: Counter = Counter()
+    keys: set = set()
+    violations = []
+    rng = random.Random(case["seed"] * 131 + 5)
+    _, solo = _sweeper_run(il.Segments([("S0", 10**6), ("P0", 10**6)]), 1)
+    na, nb = solo["steps"].get("S0", 12) + 2, solo["steps"].get("P0", 20) + 2
+    scheds = il.bound_schedules(na, nb, 2, names=("S0", "P0"), sample=case["sample"], rng=rng)
+    for i, sc in enumerate(scheds):
+        v, info = _sweeper_run(il.Segments(sc), i % 9)
+        obs["evaluations"] += 1
+        if info["failed"]:
+            obs["scheduler_watchdog"] += 1
+            continue
+        if info["switches"]:
+            obs["sweep_schedules_with_switch"] += 1
+            keys.add(f"sweep:{info['trace_hash']}")
+        for x in v:
+            x.update(schedule=sc)
+        violations += v
+    for j in range(case["sample"] // 4):
+        sd = rng.randrange(1 << 30)
+        v, info = _sweeper_run(il.RandomPolicy(sd, 0.4), sd, two_sweepers=True)
+        obs["evaluations"] += 1
+        if info["failed"]:
+            obs["scheduler_watchdog"] += 1
+            continue
+        if info["switches"]:
+            obs["sweep_schedules_with_switch"] += 1
+            keys.add(f"sweep2:{info['trace_hash']}")
+        for x in v:
+            x.update(policy_seed=sd, two_sweepers=True)
+        violations += v
+    return {"violations": _uniq(violations), "obs": dict(obs), "keys": sorted(keys)}
+
+
 def _pollers3(case: dict) -> dict:
     obs: Counter = Counter()
     keys: set = set()
@@ -535,6 +650,8 @@ def run_case(case: dict) -> dict:
         return _pollers3(case)
     if k == "replayers":
         return _replayers(case)
+    if k == "sweepers":
+        return _sweepers(case)
     return _poison(case)
 
 
